@@ -60,6 +60,7 @@ pub fn registry() -> Vec<(&'static str, &'static str, MonFn)> {
         ("c06_diff", "C06", c06::differential as MonFn),
         ("c06_subst_ids", "C06", c06::subst_ids as MonFn),
         ("c14_sweep", "C14", c14::sweep as MonFn),
+        ("c14_nested", "C14", c14::nested as MonFn),
         ("c14_aborts", "C14", c14::aborts as MonFn),
         ("c14_import", "C14", c14::import as MonFn),
         ("c11_exh", "C11", c11::exhaustive as MonFn),
@@ -98,6 +99,7 @@ pub fn registry() -> Vec<(&'static str, &'static str, MonFn)> {
         ("c16_mgr", "C16", c16::manager as MonFn),
         ("c17_exh", "C17", c17::exhaustive as MonFn),
         ("c17_rand", "C17", c17::random as MonFn),
+        ("c17_plain", "C17", c17::plain as MonFn),
         ("c17_case", "C17", c17::single as MonFn),
         ("c18_simplify_exh", "C18", c18::simplify_exh as MonFn),
         ("c18_simplify_rand", "C18", c18::simplify_rand as MonFn),
